@@ -289,7 +289,7 @@ AutoKE(m, n) ==
   LET o == (3 * (1 + Log2Floor(Min({m, n})))) \div 4
       k0 == IF o < 1 THEN 1 ELSE IF o > 16 THEN 16 ELSE o
       k1 == IF k0 >= 7 THEN 7 ELSE k0
-  IN IF 3 * Pow2(k1) * n > 2 * Cfg.l3 THEN k1 - 1 ELSE k1
+  IN IF k1 > 1 /\ 3 * Pow2(k1) * n > 2 * Cfg.l3 THEN k1 - 1 ELSE k1
 \* _mzd_density(A, 32, r, c) >= thr / 1000 (the comparison of the two quotients is exact in integers: they differ by far
 \* more than the rounding of a double unless they are equal)
 CountFrom(R, lo, hi, c0, c1) == FoldSet(LAMBDA i, acc : acc + Cardinality({x \in R[i] : x >= c0 /\ x < c1}), 0, lo .. hi)
